@@ -101,6 +101,16 @@ class VBTranslator(object):
             raise Refuse('constant of unsupported type')
         if isinstance(e, ast.Subscript):
             v, ty, b = self.expr(e.value, env)
+            if ty == 'bytes' and isinstance(e.slice, ast.Slice) and e.slice.step is None:
+                bnds = []
+                for bd in (e.slice.lower, e.slice.upper):
+                    if bd is None:
+                        bnds.append('None')
+                    elif isinstance(bd, ast.Constant) and isinstance(bd.value, int):
+                        bnds.append('(Some %s)' % (str(bd.value) if bd.value >= 0 else '(%d)' % bd.value))
+                    else:
+                        raise Refuse('slice bound (line %d)' % e.lineno)
+                return '(py_slice %s %s %s)' % (v, bnds[0], bnds[1]), 'bytes', b
             if ty == 'osch' and isinstance(e.slice, ast.Constant) and e.slice.value in (0, 1):
                 t = self.fresh()
                 return t, 'Z', b + [(t, 'osch_index %s %d' % (v, e.slice.value))]
@@ -395,7 +405,7 @@ VERIFY_CALLS = {'verifyServerKeyExchange', '_tls12_verify_SKE', '_tls12_verify_e
                 '_tls12_verify_eddsa_ske', '_tls12_verify_dsa_SKE', 'calcVerifyBytes', 'verify_binder',
                 'verify', 'hashAndVerify', 'method', 'ver_func', '_getFinished', 'checker',
                 'ct_compare_digest', '_calc_binder', 'compute_certificate_dc_sig_context'}
-COMPARE_WORDS = ('verify_data', 'sig_algs', 'sigalgs', 'signature_algs', 'verifyData', 'dc_cert_verify_algorithm')
+COMPARE_WORDS = ('verify_data', 'sig_algs', 'sigalgs', 'signature_algs', 'sigHashesToList', 'verifyData', 'dc_cert_verify_algorithm')
 FILES = ['tlslite/tlsconnection.py', 'tlslite/tlsrecordlayer.py', 'tlslite/keyexchange.py',
          'tlslite/x509.py', 'tlslite/handshakehelpers.py']
 # functions of keyexchange.py/x509.py that only SIGN (peer role) are not part of the table
@@ -649,6 +659,9 @@ class SiteWalker(object):
                         self.bind(t, self.txt(s.value, 60))
                     for t in flat:
                         nm = t.id if isinstance(t, ast.Name) else t.attr if isinstance(t, ast.Attribute) else None
+                        if nm == 'session' and isinstance(t, ast.Attribute) and short(t.value, 20) == 'self':
+                            # the connection's session object carries the identities: when it is (re)bound
+                            self.row('assign', 'self.session = ' + self.txt(s.value, 60), guards, '-')
                         if nm in IDENT_NAMES:
                             self.row('assign', short(t, 60) + ' = ' + self.txt(s.value, 90), guards, '-')
                 else:
